@@ -217,6 +217,20 @@ func genUniverse(c *simrt.Choices, g genCfg) *Universe {
 		u.Specs[s.Label()] = s
 		order = append(order, s.Label())
 	}
+	if g.Features["twins"] && len(pkgs) >= 2 {
+		// label-independent commands with the same relative output path in different packages:
+		// their output hashes coincide whenever their inputs have the same parity
+		join := &Spec{Pkg: pkgs[0], Name: "join", Ver: 1, Proj: "all", Outs: []OutSpec{{Kind: "file", Path: "out/join.out"}}}
+		for i, p := range pkgs {
+			if i >= 3 {
+				break
+			}
+			tw := &Spec{Pkg: p, Name: "tw", Ver: 1, Proj: "parity", Inputs: []string{"s0.txt"}, Outs: []OutSpec{{Kind: "file", Path: "out/common.out"}}}
+			u.Specs[tw.Label()] = tw
+			join.Deps = append(join.Deps, tw.Label())
+		}
+		u.Specs[join.Label()] = join
+	}
 	return u
 }
 
@@ -281,7 +295,10 @@ func genEdit(c *simrt.Choices, u *Universe, g genCfg, snapshots []*Universe) (*U
 		kinds = append(kinds, "toggle-fail")
 	}
 	if g.Features["checks"] {
-		kinds = append(kinds, "destroy-condition", "destroy-condition")
+		kinds = append(kinds, "destroy-condition", "destroy-condition", "toggle-breaks")
+	}
+	if g.Features["extfail"] {
+		kinds = append(kinds, "ext-fail", "ext-fail")
 	}
 	k := kinds[c.Choose(len(kinds), "edit-kind")]
 	n := u.Clone()
@@ -496,6 +513,28 @@ func genEdit(c *simrt.Choices, u *Universe, g genCfg, snapshots []*Universe) (*U
 			n.Ext[k] = ""
 			ed.Detail = k
 		}
+	case "toggle-breaks":
+		var cands []*Spec
+		for _, l := range labels {
+			if len(n.Specs[l].Checks) > 0 {
+				cands = append(cands, n.Specs[l])
+			}
+		}
+		if len(cands) > 0 {
+			sp := cands[c.Choose(len(cands), "breaks-target")]
+			sp.Breaks = !sp.Breaks
+			sp.Ver++
+			ed.Target = sp.Label()
+		}
+	case "ext-fail":
+		sp := lab()
+		key := "fail_" + sp.Label()
+		if n.Ext[key] != "" {
+			n.Ext[key] = ""
+		} else {
+			n.Ext[key] = pick(c, "extfail-kind", "exit", "omit", "break")
+		}
+		ed.Target, ed.Detail = sp.Label(), n.Ext[key]
 	case "toggle-fail":
 		s := lab()
 		if s.Fail != "" {
@@ -515,7 +554,7 @@ func genBuildReq(c *simrt.Choices, u *Universe, g genCfg) BuildReq {
 	req := BuildReq{Kind: "build", CwdPkg: ""}
 	labels := u.Labels()
 	pkgs := u.pkgsOf()
-	switch c.Choose(8, "pattern-kind") {
+	switch c.Choose(10, "pattern-kind") {
 	case 0, 1:
 		req.Patterns = []string{"//..."}
 	case 2:
@@ -536,6 +575,22 @@ func genBuildReq(c *simrt.Choices, u *Universe, g genCfg) BuildReq {
 		req.Patterns = []string{":" + nameOfLabel(l)}
 	case 6:
 		req.Patterns = []string{labels[c.Choose(len(labels), "ptarget")], labels[c.Choose(len(labels), "ptarget")]}
+	case 8:
+		// exact label mixed with a wildcard
+		l := labels[c.Choose(len(labels), "ptarget")]
+		p := pkgs[c.Choose(len(pkgs), "ppkg")]
+		wc := "//" + p + "/..."
+		if p == "" {
+			wc = "//:all"
+		} else if c.Choose(2, "wc-all") == 1 {
+			wc = "//" + p + ":all"
+		}
+		req.Patterns = []string{l, wc}
+	case 9:
+		l := labels[c.Choose(len(labels), "ptarget")]
+		req.CwdPkg = pkgOfLabel(l)
+		other := pkgs[c.Choose(len(pkgs), "ppkg")]
+		req.Patterns = []string{":" + nameOfLabel(l), "//" + other + ":all"}
 	case 7:
 		as := sortedKeys(u.Aliases)
 		if len(as) > 0 {
